@@ -28,15 +28,17 @@ func runC05(c *Ctx) {
 				key := siteKey(c.P, d, s, si, cls)
 				fn := core.FuncName(s.Fn)
 				pos := s.Alloc.Pos()
-				pstr := pi.Path.String()
+				pstr := pi.Desc
 				ttl, rtt := pi.Fields["TTL"], pi.Fields["RTT"]
-				lks := findLookups(d, pi.Atoms)
+				lks := findLookups(c.P, d, pi.Atoms)
 				ok, detail := false, ""
 				for _, l := range lks {
 					lk := l.Call.Key()
 					switch {
 					case rtt.Op == "call" && rtt.Name == "time.Since" && strings.Contains(rtt.Args[0].Key(), lk) && strings.Contains(ttl.Key(), lk):
 						ok, detail = true, "RTT = time.Since(<"+l.Call.Name+">.sendTime) and TTL from the same lookup value"
+					case rtt.Op == "call" && rtt.Name == "(time.Time).Sub" && len(rtt.Args) == 2 && rtt.Args[0].Op == "call" && rtt.Args[0].Name == "time.Now" && strings.Contains(rtt.Args[1].Key(), lk) && strings.Contains(ttl.Key(), lk):
+						ok, detail = true, "RTT = time.Now().Sub(<"+l.Call.Name+">.sendTime) and TTL from the same lookup value"
 					case strings.Contains(rtt.Key(), lk) && rtt.Op == "extract" && rtt.Name == "0":
 						// accessor form: RTT = accessor(key)#0, TTL = conv(key)
 						for _, ka := range l.Call.Args[1:] {
@@ -52,6 +54,37 @@ func runC05(c *Ctx) {
 				}
 				if ok {
 					R.OK("R05.1", key, pos, fn, detail)
+					// the clock that ends the RTT is read after the capture read returned, on this very path
+					var clock ssa.Value
+					rtt.Walk(func(x *core.Term) bool {
+						if x.Op == "call" && (x.Name == "time.Since" || x.Name == "time.Now") && x.Val != nil {
+							clock = x.Val
+						}
+						return true
+					})
+					ci, ri := -1, -1
+					for i, ev := range pi.Events {
+						if ev.Kind != "call" {
+							continue
+						}
+						if v, isV := ev.Instr.(ssa.Value); isV && clock != nil && v == clock {
+							ci = i
+						}
+						if call, isCall := ev.Instr.(*ssa.Call); isCall && isCaptureRead(call.Common()) {
+							ri = i
+						}
+					}
+					switch {
+					case clock == nil || ci < 0 || ri < 0:
+						// accessor form (the clock is read inside the accessor, which runs after the read by construction) or no read on the path
+						if clock != nil && ri >= 0 && ci < 0 {
+							R.FailPath("R05.1", key+"/clock", pos, fn, "the clock read that ends the RTT is not on the accept path: undecided", pstr)
+						}
+					case ci < ri:
+						R.FailPath("R05.1", key+"/clock", pos, fn, "the clock that ends the RTT is read BEFORE the capture read ("+c.P.PosStr(pi.Events[ci].Instr.Pos())+" precedes "+c.P.PosStr(pi.Events[ri].Instr.Pos())+"): the RTT ends when the poll started, not when the reply arrived, and is negative for a probe sent during the poll", pstr)
+					default:
+						R.OK("R05.1", key+"/clock", pos, fn, "RTT clock is read after the capture read")
+					}
 				} else {
 					if detail == "" {
 						detail = "RTT (" + rtt.String() + ") and TTL (" + ttl.String() + ") do not come from the same sent-probe lookup"
@@ -142,10 +175,12 @@ func accessorSince(c *Ctx, call *core.Term) bool {
 	return n > 0
 }
 
-// sharedFields: receiver fields written under SendProbe and read under ReceiveProbe.
+// sharedFields: storage written under SendProbe and read (or written) under ReceiveProbe, keyed "pkg.Type.field" by owner type,
+// so a table kept in a struct of its own (or behind a pointer) is the same object as one kept in the driver.
 func sharedFields(p *core.Prog, d Driver) map[string]bool {
-	_, w := recvFieldsTouched(p, d.SendProbe)
-	r, w2 := recvFieldsTouched(p, d.ReceiveProbe)
+	pkg := core.FuncPkg(d.ReceiveProbe)
+	_, w := typedFieldsTouched(p, pkg, d.SendProbe)
+	r, w2 := typedFieldsTouched(p, pkg, d.ReceiveProbe)
 	out := map[string]bool{}
 	for f := range w {
 		if r[f] || w2[f] {
@@ -156,9 +191,57 @@ func sharedFields(p *core.Prog, d Driver) map[string]bool {
 }
 
 func writesShared(p *core.Prog, f *ssa.Function, shared map[string]bool) bool {
-	_, w := recvFieldsTouched(p, f)
+	_, w := typedFieldsTouched(p, core.FuncPkg(f), f)
 	for k := range w {
 		if shared[k] {
+			return true
+		}
+	}
+	return false
+}
+
+// addrTypedKeys: the typed keys of every field on the address chain of v (x.a.b[i] → keys of a and b).
+func addrTypedKeys(v ssa.Value) []string {
+	var out []string
+	for i := 0; i < 8; i++ {
+		switch x := v.(type) {
+		case *ssa.FieldAddr:
+			if k, _ := typedFieldKey(x); k != "" {
+				out = append(out, k)
+			}
+			v = x.X
+		case *ssa.IndexAddr:
+			v = x.X
+		case *ssa.UnOp:
+			v = x.X
+		default:
+			return out
+		}
+	}
+	return out
+}
+
+func anyKey(keys []string, set map[string]bool) bool {
+	for _, k := range keys {
+		if set[k] {
+			return true
+		}
+	}
+	return false
+}
+
+// isCaptureRead: a call that takes the capture source (packets.Source) and is not a deadline setter / close: the read.
+func isCaptureRead(cc *ssa.CallCommon) bool {
+	isSrc := func(t types.Type) bool { return isNamed(t, core.ModulePath+"/packets", "Source") }
+	if cc.IsInvoke() {
+		return isSrc(cc.Value.Type()) && cc.Method.Name() == "Read"
+	}
+	f := cc.StaticCallee()
+	if f == nil || !core.InModule(f) {
+		return false
+	}
+	for _, a := range cc.Args {
+		if isSrc(a.Type()) {
 			return true
 		}
 	}
@@ -202,14 +285,12 @@ func checkSendOrderAs(c *Ctx, d Driver, rule string, stamps bool) {
 					tables = append(tables, in)
 				}
 			case *ssa.Store:
-				if root, path := addrRootFields(x.Addr); root == ssa.Value(f.Params[0]) && len(path) > 0 && shared[path[0]] {
+				if anyKey(addrTypedKeys(x.Addr), shared) {
 					tables = append(tables, in)
 				}
 			case *ssa.MapUpdate:
-				if l, ok := x.Map.(*ssa.UnOp); ok {
-					if root, path := addrRootFields(l.X); root == ssa.Value(f.Params[0]) && len(path) > 0 && shared[path[0]] {
-						tables = append(tables, in)
-					}
+				if anyKey(addrTypedKeys(x.Map), shared) {
+					tables = append(tables, in)
 				}
 			}
 		}
